@@ -51,6 +51,7 @@ var (
 	gF   = 1e15
 )
 
+
 func sumMap(m map[string]int) int {
 	t := 0
 	for _, k := range keys4 {
